@@ -899,10 +899,6 @@ class IndicatorNuclearNormUnitBall(Ref):
 # --------------------------------------------------------------------------
 # derived nodes (calculus rules of convex analysis)
 
-def _all_or_none(vals):
-    return None if any(v is None for v in vals) else vals
-
-
 class LeftScal(Ref):
     """(s f)(x) = s f(x), s > 0:  (s f)*(y) = s f*(y / s)."""
 
